@@ -26,7 +26,12 @@ func vMk(id string, s vShape) *server.Entity {
 	if s.val != "" {
 		e.Properties["ns0:v"] = s.val
 	}
-	if s.ref != "" {
+	switch s.ref {
+	case "":
+	case "both":
+		// a multi-valued reference: the single reference e2 grown by appending e3
+		e.References["ns0:p1"] = []interface{}{"ns0:e2", "ns0:e3"}
+	default:
 		e.References["ns0:p1"] = s.ref
 	}
 	e.IsDeleted = s.del
@@ -156,6 +161,9 @@ func VerifC12Compact(h *verifh.H) {
 	var times []int64
 	vals := []string{"x", "y"}
 	refs := []string{"", "ns0:e2", "ns0:e3"}[:h.Param("refs", 2)]
+	if h.Param("refset", 0) == 1 {
+		refs = []string{"", "ns0:e2", "both"} // single reference, and the same reference grown to an array
+	}
 	for k := 0; k < n; k++ {
 		s := vShape{val: vals[h.Choice("val", 2)], ref: refs[h.Choice("ref", len(refs))], del: h.Choice("del", 2) == 1}
 		e := vMk("ns0:e1", s)
